@@ -719,10 +719,23 @@ func (sc *Scope) call(x *SExpr) Val {
 			return scalar(tFloat64, App("sumFR", arr, a.sOff(), a.sLen(), arg(1).T()))
 		}
 	case "sel":
-		// sel(a, i): element of a ghost array
+		// sel(a, i): element of a ghost array (the element type follows the ghost variable's declared sort)
 		a, i := arg(0), arg(1)
 		var t types.Type = tBool
+		if x.Args[0].Kind == SIdent || (x.Args[0].Kind == SOld && x.Args[0].Args[0].Kind == SIdent) {
+			id := x.Args[0]
+			if id.Kind == SOld {
+				id = id.Args[0]
+			}
+			if gd, ok := e.Ghosts[id.Name]; ok && strings.HasSuffix(gd.Sort, " Int)") {
+				t = tInt
+			}
+		}
 		return scalar(t, Sel(a.T(), i.T()))
+	case "upd":
+		// upd(a, i, v): ghost array a with element i replaced by v
+		a, i, v := arg(0), arg(1), arg(2)
+		return Val{Typ: nil, Leaves: []*Term{Sto(a.T(), i.T(), v.T())}}
 	case "heapOf":
 		// heapOf(T.f): the current value of field f for all objects, as an array (argument for recursive spec functions)
 		if len(x.Args) != 1 || x.Args[0].Kind != SSel || x.Args[0].Args[0].Kind != SIdent {
